@@ -81,6 +81,7 @@ func runC10(c *Ctx) {
 	c.rule("unset-stays-unset", "every Unmangle that parses or converts does so only after a nil test of its input that returns the zero of the original field type", 3)
 	c.rule("unset-typed-as-field", "every reflect.Zero returned by helper.OnImplements (the unset value of a text-unmarshaler field) has the field's own type: the zero of the pointer-stripped type only where no pointer was stripped, the nil pointer to it only where one was", 2)
 	c.rule("recursion-excludes-textm", "the type a nested Transformer is created for (after stripping the outer pointer / slice / array) was itself tested, in both forms, not to implement encoding.TextUnmarshaler", 1)
+	c.rule("reverse-skips-untranslated", "(sibling agreement) ReverseTranslate calls Unmangle only for state entries whose recorded field passes the predicate under which TranslateType mangled it (go/ast.IsExported of the name)", 1)
 	c.rule("should-recurse-table", "ShouldRecurse is a constant per mangler: false for the flattening mangler (it walks nested structs itself), true for all others", 9)
 
 	w := c.W
@@ -108,6 +109,7 @@ func runC10(c *Ctx) {
 	c10Unset(c)
 	c10OnImplementsZero(c, "unset-typed-as-field")
 	c10RecursionExcludesTextM(c, "recursion-excludes-textm")
+	c10ReverseSkipsUntranslated(c, "reverse-skips-untranslated")
 	_ = w
 }
 
@@ -1258,4 +1260,79 @@ func c10RecursionExcludesTextM(c *Ctx, rule string) {
 	if n == 0 {
 		c.bad(rule, relName(f), f.Pos(), "no nested Transformer{t: ...} construction found")
 	}
+}
+
+// c10ReverseSkipsUntranslated (sibling agreement): TranslateType leaves an empty state entry for every field it
+// skips (go/ast.IsExported(name) false, before Mangle is called), so ReverseTranslate may call Unmangle only for
+// entries whose recorded input field passes the same predicate; otherwise a mangler is handed a zero StructField
+// and no values (D32: every decoder panicked on []Inner with an unexported field in Inner).
+func c10ReverseSkipsUntranslated(c *Ctx, rule string) {
+	w := c.W
+	tt := w.fn("transform", "Transformer.TranslateType")
+	rt := w.fn("transform", "Transformer.ReverseTranslate")
+	uf := w.fn("transform", "Transformer.unmangleField")
+	if !c.need(tt != nil && rt != nil && uf != nil, "transform.Transformer.TranslateType / ReverseTranslate / unmangleField") {
+		return
+	}
+	// does TranslateType skip fields before mangling them?
+	var skipPred string
+	for _, i := range allInstrs(tt) {
+		ci, ok := i.(*ssa.Call)
+		if !ok || !ci.Call.IsInvoke() || ci.Call.Method.Name() != "Mangle" {
+			continue
+		}
+		for _, ec := range condsDominating(ci.Block()) {
+			if cc, ok := ec.Cond.(*ssa.Call); ok && inLoop(cc) && staticCallee(cc) != nil && len(cc.Call.Args) == 1 {
+				if _, isName := loadOfFieldNamed(cc.Call.Args[0], "Name"); isName && ec.Val {
+					skipPred = calleeFullName(cc)
+				}
+			}
+		}
+	}
+	if skipPred == "" {
+		c.okTrivial(rule, relName(tt), tt.Pos(), "TranslateType mangles every field: there are no empty state entries")
+		return
+	}
+	n := 0
+	for _, ci := range callsToFn(rt, uf) {
+		call := ci.(*ssa.Call)
+		n++
+		okG := false
+		for _, ec := range condsDominating(call.Block()) {
+			cc, ok := ec.Cond.(*ssa.Call)
+			if !ok || !ec.Val || calleeFullName(cc) != skipPred {
+				continue
+			}
+			// the argument is the Name of the `in` field of the state element being unmangled
+			nameOf, isName := loadOfFieldNamed(cc.Call.Args[0], "Name")
+			if !isName {
+				continue
+			}
+			if fa, ok := nameOf.(*ssa.FieldAddr); ok && fieldName(fa.X.Type(), fa.Field) == "in" && sameValue(fa.X, call.Call.Args[2]) {
+				okG = true
+			}
+		}
+		c.check(okG, rule, relName(rt)+"#unmangle#"+itoa(n), call.Pos(), "a field is unmangled only if "+skipPred+"(its recorded name) holds - the predicate under which TranslateType mangled it",
+			"TranslateType skips fields for which "+skipPred+"(name) is false and leaves an empty state entry for them, but ReverseTranslate unmangles that entry all the same: a mangler receives a zero StructField and no values (nested struct types reached through slices are not pointerified, so []Inner with an unexported field in Inner makes every decoder panic)")
+	}
+	if n == 0 {
+		c.bad(rule, relName(rt), rt.Pos(), "ReverseTranslate no longer calls unmangleField")
+	}
+}
+
+// loadOfFieldNamed: v is a load of a struct field called name; returns the address of the struct.
+func loadOfFieldNamed(v ssa.Value, name string) (ssa.Value, bool) {
+	switch x := v.(type) {
+	case *ssa.UnOp:
+		if x.Op == token.MUL {
+			if fa, ok := x.X.(*ssa.FieldAddr); ok && fieldName(fa.X.Type(), fa.Field) == name {
+				return fa.X, true
+			}
+		}
+	case *ssa.Field:
+		if fieldName(x.X.Type(), x.Field) == name {
+			return x.X, true
+		}
+	}
+	return nil, false
 }
